@@ -248,14 +248,64 @@ class Named(Hooks):
         self.cfg = cfg
         self.viol = []
         self.mixed_probes = 0
+        self.twice_probes = 0
 
     def before(self, it, kind, args):
         named = any(isinstance(a, (tuple, list, str)) and len(a) > 0
                     for a in args)
         self.obs.engine_chosen = not named
 
+    def same_card_twice(self, s):
+        """With warnings as errors the engine may refuse what it does not
+        recommend; whatever it accepts must leave every known card in one
+        place - also when the caller names one card twice in one argument
+        (two copies of a dealable card, of a held card at the showdown)."""
+        import copy
+        from ..engine import is_engine_exception, unobserved
+        tries = []
+        if s.can_deal_board() or s.can_deal_hole():
+            x = next(iter(s.get_dealable_cards(1)), None)
+            if x is not None and x:
+                if s.can_deal_board():
+                    k = s.board_dealing_count or 0
+                    for n in {2, k} - {0, 1}:
+                        tries.append(('deal_board', (x,) * n))
+                if s.can_deal_hole():
+                    tries.append(('deal_hole', (x, x)))
+        if s.can_show_or_muck_hole_cards():
+            i = s.showdown_index
+            held = [c for c in s.hole_cards[i] if c]
+            if len(held) >= 2:
+                tries.append(('show_or_muck_hole_cards', (held[0], held[0])))
+        for name, cards in tries:
+            c = copy.deepcopy(s)
+            try:
+                with warnings.catch_warnings(), unobserved():
+                    warnings.simplefilter('error')
+                    getattr(c, name)(cards)
+            except (ValueError, UserWarning):
+                self.twice_probes += 1
+                continue
+            except Exception as e:  # noqa: BLE001
+                if not is_engine_exception(e):
+                    raise
+                continue    # a crash in the cascade is C07's business
+            self.twice_probes += 1
+            cnt = Counter(x for x in places(c) if x)
+            dup = [x for x, n in cnt.items() if n > 1]
+            if dup:
+                self.viol.append(V(
+                    ID, 'card_duplicated', 'same_card_twice_in_one_argument',
+                    f'{name}({cards!r}) after {len(s.operations)} operations'
+                    f' was accepted with warnings as errors: {dup} are in'
+                    ' two places'))
+                return
+
     def quiescent(self, it):
         s = it.state
+        self.calls = getattr(self, 'calls', 0) + 1
+        if not self.viol and s.status and self.calls % 3 == 0:
+            self.same_card_twice(s)
         if self.viol or not self.cfg.get('unknown') or not s.status:
             return
         if not s.can_deal_board():
@@ -335,6 +385,7 @@ def check(case, stats):
         return []
     out = list(obs.viol) + list(named.viol)
     stats.count('mixed_board_probes', named.mixed_probes)
+    stats.count('same_card_twice_probes', named.twice_probes)
     if res.outcome in ('crash', 'hang', 'runaway'):
         out.append(V(ID, 'engine_crash', exc_key(res.exc),
                      f'{type(res.exc).__name__}: {res.exc}'))
